@@ -1,0 +1,158 @@
+//go:build verif
+
+package tlv8
+
+// Contracts for package tlv8, checked by /verif (govc). Comment-only file: it adds no declarations.
+//
+// The wire format (contracts/spec/tlv8.spec, written from the HAP specification): an item is tag | length | value;
+// integers travel little-endian (leN), a float32 as its IEEE 754 bits, a bool as one byte 0/1. out(wr) is the byte string
+// written so far. What a peer reads for a tag is tlvget(out, tag).
+
+//@ pred out(wr) = stream(addr(wr.buf))
+
+//@ func (wr *writer) write(b) (n, err)
+//@   requires wr != nil
+//@   modifies stream(addr(wr.buf))
+//@   ensures n == len(b) && err == nil && out(wr) == cat(old(out(wr)), seq(b))
+
+// writeBytes: ceil(len/255) items of that tag, fragments of 255 bytes and a last shorter one (none for an empty value).
+// For a value of 1..254 bytes that is exactly one item; in general a reader of the output assembles, for this tag, what
+// it assembled before followed by value, and for every other tag what it did before.
+//@ func (wr *writer) writeBytes(tag, value)
+//@   requires wr != nil
+//@   modifies stream(addr(wr.buf))
+//@   ensures one: 0 < len(value) && len(value) < 255 ==> out(wr) == cat(old(out(wr)), tlvitem(tag, old(seq(value))))
+//@   ensures empty: len(value) == 0 ==> out(wr) == old(out(wr))
+//@   ensures wf: old(tlvwf(out(wr))) ==> tlvwf(out(wr))
+//@   ensures value: old(tlvwf(out(wr))) ==> forallv("u:int", tlvget(out(wr), u) == ite(u == tag, cat(old(tlvget(out(wr), u)), old(seq(value))), old(tlvget(out(wr), u))), tlvget(out(wr), u))
+//@   assert item before write#1: seq(b) == tlvitem(tag, seq(v)) && len(v) <= 255
+//@   loop 0
+//@     invariant base: buff != nil && len(stream(buff)) <= len(value) && stream(buff) == sub(old(seq(value)), len(value) - len(stream(buff)), len(value))
+//@     invariant one: 0 < len(value) && len(value) < 255 ==> (len(stream(buff)) == len(value) && out(wr) == old(out(wr))) || (len(stream(buff)) == 0 && out(wr) == cat(old(out(wr)), tlvitem(tag, old(seq(value)))))
+//@     invariant empty: len(value) == 0 ==> out(wr) == old(out(wr))
+//@     invariant wf: old(tlvwf(out(wr))) ==> tlvwf(out(wr))
+//@     invariant value: old(tlvwf(out(wr))) ==> forallv("u:int", tlvget(out(wr), u) == ite(u == tag, cat(old(tlvget(out(wr), u)), sub(old(seq(value)), 0, len(value) - len(stream(buff)))), old(tlvget(out(wr), u))), tlvget(out(wr), u))
+
+//@ func (wr *writer) writeByte(tag, b)
+//@   requires wr != nil
+//@   modifies stream(addr(wr.buf))
+//@   ensures out(wr) == cat(old(out(wr)), tlvitem(tag, unit(b)))
+//@ func (wr *writer) writeBool(tag, b)
+//@   requires wr != nil
+//@   modifies stream(addr(wr.buf))
+//@   ensures out(wr) == cat(old(out(wr)), tlvitem(tag, unit(ite(b, 1, 0))))
+//@ func (wr *writer) writeString(tag, s)
+//@   requires wr != nil
+//@   modifies stream(addr(wr.buf))
+//@   ensures one: 0 < len(s) && len(s) < 255 ==> out(wr) == cat(old(out(wr)), tlvitem(tag, seq(s)))
+//@ func (wr *writer) writeUint16(tag, v)
+//@   requires wr != nil
+//@   modifies stream(addr(wr.buf))
+//@   ensures out(wr) == cat(old(out(wr)), tlvitem(tag, le16(v)))
+//@ func (wr *writer) writeUint32(tag, v)
+//@   requires wr != nil
+//@   modifies stream(addr(wr.buf))
+//@   ensures out(wr) == cat(old(out(wr)), tlvitem(tag, le32(v)))
+//@ func (wr *writer) writeUint64(tag, v)
+//@   requires wr != nil
+//@   modifies stream(addr(wr.buf))
+//@   ensures out(wr) == cat(old(out(wr)), tlvitem(tag, le64(v)))
+//@ func (wr *writer) writeInt16(tag, v)
+//@   requires wr != nil
+//@   modifies stream(addr(wr.buf))
+//@   ensures out(wr) == cat(old(out(wr)), tlvitem(tag, le16(v)))
+//@ func (wr *writer) writeInt32(tag, v)
+//@   requires wr != nil
+//@   modifies stream(addr(wr.buf))
+//@   ensures out(wr) == cat(old(out(wr)), tlvitem(tag, le32(v)))
+//@ func (wr *writer) writeInt64(tag, v)
+//@   requires wr != nil
+//@   modifies stream(addr(wr.buf))
+//@   ensures out(wr) == cat(old(out(wr)), tlvitem(tag, le64(v)))
+//@ func (wr *writer) writeFloat32(tag, v)
+//@   requires wr != nil
+//@   modifies stream(addr(wr.buf))
+//@   ensures out(wr) == cat(old(out(wr)), tlvitem(tag, le32(f32bits(v))))
+
+// ---- reader: m[tag] is the list of buckets (values) read for a tag; a read takes the first bucket of the list.
+//@ pred hasTag(r, tag) = len(r.m[tag]) > 0
+//@ func (r *reader) len(tag) (n)
+//@   requires r != nil
+//@   pure
+//@   ensures n == ite(len(r.m[tag]) > 0, len(r.m[tag][0]), 0)
+// firstOK: the bucket a read takes is not empty (read() stores only non-empty buckets: stated assumption on the state
+// the unverified read() builds; it is what makes b[0] safe)
+//@ pred firstOK(r, tag) = r != nil && (len(r.m[tag]) > 0 ==> len(r.m[tag][0]) > 0)
+//@ func (r *reader) readBytes(tag) (b, err)
+//@   requires r != nil
+//@   modifies r.m[:], r.m[tag][:]
+//@   ensures found: (err == nil) == old(len(r.m[tag]) > 0)
+//@   ensures first: err == nil ==> b == old(r.m[tag][0]) && seq(b) == old(seq(r.m[tag][0]))
+//@   ensures none: err != nil ==> len(b) == 0 && err == sentinel("io.EOF")
+//@   ensures rest: err == nil ==> len(r.m[tag]) == old(len(r.m[tag])) - 1
+//@   ensures shift: err == nil ==> forall(i, 0, len(r.m[tag]), r.m[tag][i] == old(r.m[tag][i + 1]))
+//@   ensures others: forall(t, 0, 256, t != tag ==> r.m[t] == old(r.m[t]))
+//@ pred first(r, tag) = seq(r.m[tag][0])
+//@ pred firstLen(r, tag) = len(r.m[tag][0])
+
+//@ func (r *reader) readByte(tag) (b, err)
+//@   requires firstOK(r, tag)
+//@   modifies r.m[:], r.m[tag][:]
+//@   ensures found: (err == nil) == old(hasTag(r, tag))
+//@   ensures val: err == nil ==> b == old(seqat(first(r, tag), 0))
+//@ func (r *reader) readBool(tag) (b, err)
+//@   requires firstOK(r, tag)
+//@   modifies r.m[:], r.m[tag][:]
+//@   ensures found: (err == nil) == old(hasTag(r, tag))
+//@   ensures val: err == nil ==> b == (old(seqat(first(r, tag), 0)) == 1)
+//@ func (r *reader) readString(tag) (s, err)
+//@   requires firstOK(r, tag)
+//@   modifies r.m[:], r.m[tag][:]
+//@   ensures found: (err == nil) == old(hasTag(r, tag))
+//@   ensures val: err == nil ==> s == tostr(old(first(r, tag)))
+
+// Fixed-width integers: a bucket of at least the width is decoded little-endian from its first bytes; a shorter
+// bucket is read with the next smaller width and widened (width promotion).
+//@ func (r *reader) readUint16(tag) (v, err)
+//@   requires firstOK(r, tag)
+//@   modifies r.m[:], r.m[tag][:]
+//@   ensures found: (err == nil) == old(hasTag(r, tag))
+//@   ensures wide: err == nil && old(firstLen(r, tag)) >= 2 ==> le16(v) == old(sub(first(r, tag), 0, 2))
+//@   ensures narrow: err == nil && old(firstLen(r, tag)) < 2 ==> v == old(seqat(first(r, tag), 0))
+//@ func (r *reader) readUint32(tag) (v, err)
+//@   requires firstOK(r, tag)
+//@   modifies r.m[:], r.m[tag][:]
+//@   ensures found: (err == nil) == old(hasTag(r, tag))
+//@   ensures wide: err == nil && old(firstLen(r, tag)) >= 4 ==> le32(v) == old(sub(first(r, tag), 0, 4))
+//@   ensures mid: err == nil && old(firstLen(r, tag)) >= 2 && old(firstLen(r, tag)) < 4 ==> le16(v) == old(sub(first(r, tag), 0, 2))
+//@   ensures narrow: err == nil && old(firstLen(r, tag)) < 2 ==> v == old(seqat(first(r, tag), 0))
+//@ func (r *reader) readUint64(tag) (v, err)
+//@   requires firstOK(r, tag)
+//@   modifies r.m[:], r.m[tag][:]
+//@   ensures found: (err == nil) == old(hasTag(r, tag))
+//@   ensures wide: err == nil && old(firstLen(r, tag)) >= 8 ==> le64(v) == old(sub(first(r, tag), 0, 8))
+//@   ensures mid: err == nil && old(firstLen(r, tag)) >= 4 && old(firstLen(r, tag)) < 8 ==> le32(v) == old(sub(first(r, tag), 0, 4))
+//@ func (r *reader) readint16(tag) (v, err)
+//@   requires firstOK(r, tag)
+//@   modifies r.m[:], r.m[tag][:]
+//@   ensures found: (err == nil) == old(hasTag(r, tag))
+//@   ensures wide: err == nil && old(firstLen(r, tag)) >= 2 ==> le16(v) == old(sub(first(r, tag), 0, 2))
+//@   ensures narrow: err == nil && old(firstLen(r, tag)) < 2 ==> v == old(seqat(first(r, tag), 0))
+//@ func (r *reader) readint32(tag) (v, err)
+//@   requires firstOK(r, tag)
+//@   modifies r.m[:], r.m[tag][:]
+//@   ensures found: (err == nil) == old(hasTag(r, tag))
+//@   ensures wide: err == nil && old(firstLen(r, tag)) >= 4 ==> le32(v) == old(sub(first(r, tag), 0, 4))
+//@   ensures mid: err == nil && old(firstLen(r, tag)) >= 2 && old(firstLen(r, tag)) < 4 ==> le16(v) == old(sub(first(r, tag), 0, 2))
+//@ func (r *reader) readint64(tag) (v, err)
+//@   requires firstOK(r, tag)
+//@   modifies r.m[:], r.m[tag][:]
+//@   ensures found: (err == nil) == old(hasTag(r, tag))
+//@   ensures wide: err == nil && old(firstLen(r, tag)) >= 8 ==> le64(v) == old(sub(first(r, tag), 0, 8))
+//@   ensures mid: err == nil && old(firstLen(r, tag)) >= 4 && old(firstLen(r, tag)) < 8 ==> le32(v) == old(sub(first(r, tag), 0, 4))
+//@ func (r *reader) readFloat32(tag) (v, err)
+//@   requires firstOK(r, tag)
+//@   modifies r.m[:], r.m[tag][:]
+//@   ensures short: old(hasTag(r, tag)) && old(firstLen(r, tag)) < 4 ==> err != nil
+//@   ensures wide: err == nil ==> old(hasTag(r, tag)) && old(firstLen(r, tag)) >= 4
+//@   assert dec before Float32frombits#1: le32(bits) == old(sub(first(r, tag), 0, 4))
